@@ -17,7 +17,8 @@ CONFIG = dict(
           "every injection helper and flag combination (insert_python first/last x keep/replace with "
           "callee eval / exec / vp_sink.hit and 0-3 constant args incl. lists and dicts; append_python "
           "pop/no-pop; insert_magic_int at several indexes; insert_function_call_on_unpickled_object "
-          "plain/compiled with constant args).  The rewritten bytes are loaded by the original C "
+          "plain/compiled with constant args), also as histories in which a helper call that is refused (unsupported "
+          "argument, definition that does not compile) precedes the valid injection on the same object.  The rewritten bytes are loaded by the original C "
           "unpickler (and, for unframed bases and modes that do not depend on exec scoping, by the "
           "pure-Python one) while the sink log and pickle.find_class audit events are recorded; the "
           "reference VM gives the stack depth at STOP.  A case is one distinct (base bytes, mode); "
@@ -31,7 +32,7 @@ CONFIG = dict(
     min_nontrivial={"quick": 1500, "thorough": 30000},
     nshards={"quick": 8, "thorough": 16},
     timeout={"quick": 900, "thorough": 5400},
-    required_counters=("rewritten_loads", "effect_logs_compared", "find_class_sequences_compared", "stack_at_stop_checked"),
+    required_counters=("refused_first_attempts", "rewritten_loads", "effect_logs_compared", "find_class_sequences_compared", "stack_at_stop_checked"),
 )
 
 INJ_SRC = "__import__('vp_sink').hit('INJ', 7)"
@@ -196,6 +197,22 @@ def inject(f, p, mode, opt):
     raise ValueError(mode)
 
 
+REFUSED = {
+    # helper calls a correct implementation refuses (arguments the helpers do not support / a definition
+    # that does not compile); what matters is the *next*, valid, injection into the same object
+    "fn-syntax-compiled": lambda p: p.insert_function_call_on_unpickled_object("def broken(:\n  pass", compile_code=True),
+    "fn-noname": lambda p: p.insert_function_call_on_unpickled_object("lambda x: x"),
+    "fn-badargs": lambda p: p.insert_function_call_on_unpickled_object("def g(o, a):\n    return o\n", constant_args=[{1}]),
+    "fn-badargs-compiled": lambda p: p.insert_function_call_on_unpickled_object(
+        "def g(o, a):\n    return o\n", constant_args=["ok", {1}], compile_code=True),
+    "python-unsupported-arg": lambda p: p.insert_python("a", {1, 2}, module="vp_sink", attr="hit"),
+    "python-unsupported-nested-last": lambda p: p.insert_python("a", [[1], {1, 2}], module="vp_sink", attr="hit", run_first=False),
+    "python-obj-partial": lambda p: p.insert_python_obj(1, [[1, 2], {3}]),
+    "append-unsupported-arg": lambda p: p.append_python("fine", object(), module="vp_sink", attr="hit"),
+    "exec-none": lambda p: p.insert_python_exec(None),
+}
+
+
 def veq(a, b):
     try:
         return type(a) is type(b) and a == b
@@ -227,6 +244,14 @@ def check(ctx, f, analysis, label, base, mode, opt):
         return
     try:
         p = f.Pickled.load(base)
+        if opt.get("refused_first"):
+            # history: a helper call that is refused, then the valid injection on the same object
+            try:
+                REFUSED[opt["refused_first"]](p)
+                agg.count("refused_first_was_accepted")
+                return
+            except Exception:
+                agg.count("refused_first_attempts")
         inj_event, inj_glob, where = inject(f, p, mode, opt)
         out = p.dumps()
     except Exception as e:
@@ -373,6 +398,19 @@ def run_shard(ctx):
             if i % ctx.nshards != ctx.shard:
                 continue
             check(ctx, f, analysis, label, base, mode, opt)
+    # histories: refused helper call -> valid injection, on the same parsed object
+    rng = asm.rng_for(ctx.seed, "c08refused")
+    nref = {"quick": 40, "thorough": 600}[ctx.tier]
+    picks = [rng.choice(blist) for _ in range(nref)]
+    for label, base in picks:
+        if len(base) > 3000:
+            continue
+        for rname in sorted(REFUSED):
+            for mode, opt in MODES:
+                i += 1
+                if i % ctx.nshards != ctx.shard or (ctx.tier == "quick" and rng.random() > 0.25):
+                    continue
+                check(ctx, f, analysis, label, base, mode, dict(opt, refused_first=rname))
 
 
 def replay(ctx, payload):
